@@ -936,7 +936,7 @@ def gen_case(rng):
 
 def gen_cases(seed, tier):
     rng = random.Random(seed * 7919 + 10)
-    n = {'quick': 1800, 'thorough': 20000, 'search': 12000}.get(tier, 2600)
+    n = {'quick': 1800, 'thorough': 15000, 'search': 12000}.get(tier, 2600)
     return [gen_case(rng) for _ in range(n)]
 
 
